@@ -296,7 +296,7 @@ void DecodeMotoADR(Word Index) {
                         unsigned z3;
 
                         for (z3 = 0; z3 < Res.Contents.str.len; z3++) {
-                            PutADR(Res.Contents.str.p_str[z3]);
+                            PutADR((unsigned char)Res.Contents.str.p_str[z3]);
                         }
                         break;
                     }
